@@ -162,8 +162,17 @@ def run_gm(case):
     if special == "start-at-data":
         x0 = y.astype(dt).copy()          # grad f(x0) = x0 - b = 0 exactly
     x = x0.copy()
+    single = sum(case["rs"]) % 7 == 3 and not special
+    slack = 0.0
+    if single:
+        # single-precision iterate (float32 / complex64) with a double-precision step and prox
+        # parameters: still updated in place, bounds with single-precision slack
+        x = x.astype(np.complex64 if cplx else np.float32)
+        x0 = x.astype(dt)
+        alpha = np.float64(alpha)
+        slack = 2e-4
     lay = case["rs"][-1] % 3
-    if lay == 1:                      # caller's x is a strided view; step is a NumPy scalar
+    if lay == 1 and not single:       # caller's x is a strided view; step is a NumPy scalar
         big = np.zeros(2 * n, dt)
         big[::2] = x
         x = big[::2]
@@ -176,27 +185,38 @@ def run_gm(case):
     k = 0
     worst = 0.0
     checks = 0
+    if single:
+        sig += "|single"
     while not alg.done():
         alg.update()
         k += 1
+        if single and x.dtype != (np.complex64 if cplx else np.float32):
+            return violated(sig, "the caller's single-precision array changed its element type",
+                            wit, mech="not-in-place")
         if alg.x is not x:
             return violated(sig, "alg.x is no longer the caller's array", wit,
                             mech="not-in-place")
-        Fk = OPT.objective(M, y, g, x)
+        Fk = OPT.objective(M, y, g, x.astype(dt) if single else x)
+        if single and g[0] == "box" and not np.isfinite(Fk):
+            # rounding to float32 can put a clipped entry 1 ulp outside the double bounds
+            xc_ = np.minimum(np.maximum(x.astype(dt), g[1]), g[2])
+            if np.max(np.abs(xc_ - x.astype(dt))) <= 1e-6 * (1 + np.max(np.abs(xc_))):
+                Fk = OPT.objective(M, y, g, xc_)
         gap = Fk - Fs
         checks += 2
         if not np.isfinite(Fk):
             return violated(sig, "iterate %d left the domain of g (F = inf)" % k, wit,
                             mech="infeasible")
         if not case["acc"]:
-            if not Fk <= Fprev + 1e-10 * max(1.0, abs(Fprev)):
+            if not Fk <= Fprev + (1e-10 + slack) * max(1.0, abs(Fprev)):
                 return violated(sig, "objective increased at update %d: %.12g -> %.12g with "
                                 "alpha = %.3g/L" % (k, Fprev, Fk, case["frac"]), wit,
                                 mech="gm-monotone")
-            bound = d0 / (2 * alpha * k) * (1 + 1e-6) + 1e-9 * max(1.0, abs(Fs))
+            bound = d0 / (2 * alpha * k) * (1 + 1e-6) + (1e-9 + slack) * max(1.0, abs(Fs))
             name = "ISTA"
         else:
-            bound = 2 * d0 / (alpha * (k + 1) ** 2) * (1 + 1e-6) + 1e-9 * max(1.0, abs(Fs))
+            bound = 2 * d0 / (alpha * (k + 1) ** 2) * (1 + 1e-6) + (1e-9 + slack) * max(
+                1.0, abs(Fs))
             name = "FISTA"
         if bound > 0:
             worst = max(worst, gap / bound)
@@ -359,6 +379,13 @@ def run_pdhg(case):
         bx, bu = np.zeros(2 * n, dt), np.zeros(2 * m, dt)
         bx[::2], bu[::2] = x, u
         x, u = bx[::2], bu[::2]
+    single = sum(case["rs"]) % 7 == 3 and case["start"] != "saddle"
+    if single:
+        # single-precision caller arrays with double-precision steps / prox parameters: the
+        # iteration must still run in the caller's arrays
+        sdt = np.complex64 if np.iscomplexobj(x) else np.float32
+        x, u = x.astype(sdt), u.astype(sdt)
+        sig += "|single"
     gp = gd = 0
     if case["gamma"] == "primal":
         gp = g[1] if g[0] == "l2" else 0.3
@@ -376,7 +403,7 @@ def run_pdhg(case):
     while k < case["iters"]:
         alg.update()
         k += 1
-        if alg.x is not x or alg.u is not u:
+        if alg.x is not x or alg.u is not u or (single and (x.dtype != sdt or u.dtype != sdt)):
             return violated(sig, "alg.x / alg.u is no longer the caller's array", wit,
                             mech="not-in-place")
         xs_.append(x.ravel().copy())
@@ -392,6 +419,16 @@ def run_pdhg(case):
                             mech="pdhg-diverged")
     checks = k
     obs = {"updates": k}
+    if single:
+        # (the monotonicity claims are decided in double precision; here: in place, finite,
+        # and not further from the saddle point than at the start)
+        d_first = nrm(xs_[0] - xs) + nrm(us_[0] - us)
+        d_last = nrm(xs_[-1] - xs) + nrm(us_[-1] - us)
+        checks += 1
+        if not d_last <= 3 * d_first + 1e-3 * scale:
+            return violated(sig, "single-precision run moved away from the saddle point: "
+                            "%.3g -> %.3g" % (d_first, d_last), wit, mech="pdhg-single")
+        return held(sig, obs, checks, True)
     if const_steps and case["start"] != "saddle":
         Tinv, Sinv = 1 / Tv, 1 / Sv
         d = [mnorm2(xs_[j] - xs, us_[j + 1] - us, Tinv, Sinv, M) for j in range(k)]
